@@ -31,7 +31,7 @@ RULE = ('cases = histories: (target operator, nrows, buffersize, cache, source f
 ASSUMPTIONS = ['reference counting plus gc.collect() reaches quiescence', 'the harness drops exception objects and tracebacks before the quiescence check']
 TARGETS = ['sort', 'join', 'complement', 'distinct', 'aggregate', 'pivot', 'mergesort', 'fromdicts']
 REQUIRED = (['target:' + t for t in TARGETS] + ['files-created', 'files-removed', 'iterator-outlived-view', 'abandoned-mid-iteration',
-            'source-failed-midway', 'chunk-write-failed-midway', 'complete-pass-after-a-failed-pass', 'pass-from-file-cache', 'cache-cleared-under-live-iterator', 'three-iterators', 'view-released-first', 'cache-off', 'quiescent-points-checked', 'descending-sort'])
+            'source-failed-midway', 'chunk-write-failed-midway', 'complete-pass-after-a-failed-pass', 'pass-from-file-cache', 'cache-cleared-under-live-iterator', 'three-iterators', 'view-released-first', 'cache-off', 'quiescent-points-checked', 'descending-sort', 'fromdicts:explicit-header'])
 EXHAUSTIVE = {'quick': False, 'thorough': False}   # the enumerated families are complete within their bounds, but a seeded random family is judged too
 
 _audit = None
@@ -179,6 +179,10 @@ def cases(ctx):
                     for release in ('view-first', 'iters-first'):
                         yield {'target': 'fromdicts', 'n': n, 'buffersize': None, 'cache': True, 'fail': None, 'failpass': None,
                                'steps': _histories(m, ks, family, release)}
+                        if m >= 2:
+                            # with an explicit header the view hands the caller's generator itself to its iterators
+                            yield {'target': 'fromdicts', 'n': n, 'buffersize': None, 'cache': True, 'fail': None, 'failpass': None,
+                                   'steps': _histories(m, ks, family, release), 'header': True}
         for fail in range(0, n + 1):
             for ks in itertools.product((1, n + 2), repeat=2):
                 yield {'target': 'fromdicts', 'n': n, 'buffersize': None, 'cache': True, 'fail': fail, 'failpass': 1,
@@ -276,7 +280,9 @@ def judge(case, ctx):
     c0, r0 = len(_audit.created), len(_audit.removed)
     out = []
     if tgt == 'fromdicts':
-        view = petl.fromdicts(_dictgen(rows, fail), header=rows[0] if n == 0 or fail == 0 else None)
+        if case.get('header'):
+            ctx.seen('fromdicts:explicit-header')
+        view = petl.fromdicts(_dictgen(rows, fail), header=rows[0] if (n == 0 or fail == 0 or case.get('header')) else None)
     else:
         view = _build(case, rows, fail, failpass, kw)
     its = {}
